@@ -83,10 +83,18 @@ Proof.
     destruct (concat_chunks b); [now rewrite app_assoc|reflexivity].
 Qed.
 
-Lemma concat_props : forall l, concat_chunks (map c_prop l) = encode_all l.
+Lemma prop_chunks_concat : forall p, concat_chunks (prop_chunks p) =
+  match prop_encode p with Some bs => Some bs | None => None end.
 Proof.
-  induction l as [|p t IH]; cbn [map concat_chunks encode_all]; [reflexivity|]. unfold c_prop at 1.
-  destruct (prop_encode p); [|reflexivity]. now rewrite IH.
+  intros p. unfold prop_chunks. destruct (prop_encode p) as [bs|]; [cbn [concat_chunks]; now rewrite app_nil_r|].
+  destruct (varint_write (kind_id (pk p))); [|reflexivity].
+  destruct (kind_shape (pk p)); try reflexivity. destruct (len_prefixed (pdata p)); reflexivity.
+Qed.
+
+Lemma concat_props : forall l, concat_chunks (flat_map prop_chunks l) = encode_all l.
+Proof.
+  induction l as [|p t IH]; cbn [flat_map concat_chunks encode_all]; [reflexivity|].
+  rewrite concat_chunks_app, prop_chunks_concat, IH. destruct (prop_encode p); [|reflexivity]. destruct (encode_all t); reflexivity.
 Qed.
 
 (* ---------- C08: the fixed-header gate ---------- *)
